@@ -1,6 +1,48 @@
-(* Properties_C02.v — see MsgProofs.v; extended as proofs land *)
+(* Properties_C02.v — C02: decoding returns exactly what a conforming encoder wrote. *)
 From Coq Require Import ZArith List.
-From Sbepp Require Import Bytes BytesFacts.
-Theorem C02_codec_round_trip : forall be w x, dec be (enc be w x) = (x mod 256 ^ Z.of_nat w)%Z.
+From Sbepp Require Import CInt Bytes BytesFacts Msg Layout Wire MsgSpec LayoutProofs MsgProofs.
+Import ListNotations.
+Local Open Scope Z_scope.
+
+Theorem C02_codec_round_trip : forall be w x, dec be (enc be w x) = x mod 256 ^ Z.of_nat w.
 Proof. exact dec_enc. Qed.
 Print Assumptions C02_codec_round_trip.
+
+Theorem C02_codec_bytes_round_trip : forall be bs, bytes_ok bs = true -> enc be (length bs) (dec be bs) = bs.
+Proof. exact enc_dec. Qed.
+Print Assumptions C02_codec_bytes_round_trip.
+
+(* the C++20 (bit_cast) and the pre-C++20 (memcpy + byteswap) implementations
+   of get_primitive both compute the specification *)
+Theorem C02_get_primitive_bitcast : forall be bs, get_primitive_bitcast be bs = dec be bs.
+Proof. exact get_primitive_bitcast_spec. Qed.
+Print Assumptions C02_get_primitive_bitcast.
+
+Theorem C02_get_primitive_memcpy : forall be bs, bytes_ok bs = true -> get_primitive_memcpy be bs = dec be bs.
+Proof. exact get_primitive_memcpy_spec. Qed.
+Print Assumptions C02_get_primitive_memcpy.
+
+(* typed values: the raw bits survive the typed view (floats are bit patterns,
+   so NaN payloads are preserved) *)
+Theorem C02_typed_value_keeps_bits : forall p raw,
+  0 <= raw < 2 ^ (8 * Z.of_nat (prim_size p)) -> to_raw p (interp p raw) = raw.
+Proof. exact interp_to_raw. Qed.
+Print Assumptions C02_typed_value_keeps_bits.
+
+(* on ANY buffer containing the image of a well-formed value tree (whatever
+   precedes and follows it), root field getters return the encoder's bytes *)
+Theorem C02_get_root_field : stmt_get_root_field_enc.
+Proof. exact get_root_field_enc. Qed.
+Print Assumptions C02_get_root_field.
+
+Theorem C02_locate_root_group : stmt_locate_root_group_enc.
+Proof. exact locate_root_group_enc. Qed.
+Print Assumptions C02_locate_root_group.
+
+Theorem C02_get_root_data : stmt_get_root_data_enc.
+Proof. exact get_root_data_enc. Qed.
+Print Assumptions C02_get_root_data.
+
+Theorem C02_size_bytes_is_image_length : stmt_msg_size_bytes_enc.
+Proof. exact msg_size_bytes_enc. Qed.
+Print Assumptions C02_size_bytes_is_image_length.
